@@ -4,22 +4,28 @@
 From Coq Require Import Floats.
 From GL Require Import Common.Bytes Lua.Syntax Lua.Num Lua.Values Lua.Eval Lua.Run.
 
-Inductive case := CProg (body : list stmt) (obs : outcome).
+Inductive case :=
+| CProg (body : list stmt) (obs : outcome)
+| CProgF (k : Z) (str : bool) (body : list stmt) (obs : outcome).   (* the k-th emit call fails *)
 
 Definition fuel : nat := Z.to_nat 30000.
 
-Definition gopher_devs := mkDevs false true false false false.
+Definition gopher_devs := mkDevs false true false false 0.
+Definition with_fault (d : devs) (k : Z) (str : bool) := mkDevs (dv_errlevel d) (dv_localfunc d) (dv_wrap_noprefix d) str k.
 
 Definition is_skip (o : outcome) := match o with Outcome _ _ => false | _ => true end.
 
-Definition check_skip (c : case) : bool :=
-  match c with CProg b _ => is_skip (outcome_of (run_program fuel no_devs b)) end.
+Definition run_case (d : devs) (c : case) : outcome * outcome :=
+  match c with
+  | CProg b obs => (outcome_of (run_program fuel d b), obs)
+  | CProgF k str b obs => (outcome_of (run_program fuel (with_fault d k str) b), obs)
+  end.
+
+Definition check_skip (c : case) : bool := is_skip (fst (run_case no_devs c)).
 
 Definition check_spec (c : case) : bool :=
-  match c with CProg b obs =>
-    let o := outcome_of (run_program fuel no_devs b) in is_skip o || outcome_eqb o obs end.
+  let '(o, obs) := run_case no_devs c in is_skip o || outcome_eqb o obs.
 
 Definition check_impl (c : case) : bool :=
-  match c with CProg b obs =>
-    let o := outcome_of (run_program fuel gopher_devs b) in
-    is_skip (outcome_of (run_program fuel no_devs b)) || is_skip o || outcome_eqb o obs end.
+  let '(o, obs) := run_case gopher_devs c in
+  is_skip (fst (run_case no_devs c)) || is_skip o || outcome_eqb o obs.
